@@ -45,8 +45,8 @@ def cli_image(rng, keys=None, n=None):
     return (b"BI" + sep() + b"".join(b"/" + k.encode() + b" " + v.encode() + sep() for k, v in keys) + b"ID" + rng.choice(c16.WS) + data + ws2 + b"EI")
 
 
-def cli_content(rng, nstat, images):
-    parts = [b"BT /F1 12 Tf ET", b"/Fm1 Do"]
+def cli_content(rng, nstat, images, pre=()):
+    parts = [b"BT /F1 12 Tf ET", b"/Fm1 Do"] + [b"/" + n + b" Do" for n in pre]
     for _ in range(nstat):
         if images and rng.random() < 0.3:
             parts.append(b"q " + cli_image(rng) + b" Q")
@@ -61,25 +61,39 @@ def cli_content(rng, nstat, images):
     return bytes(out), cuts[:-1]
 
 
-FORM_DATA = b"q (f\rm) Tj <46 4d> Tj /N#41 gs\r BI /W 1 /H 1 /BPC 8 /CS /G ID \x81\x82 EI Q\r\n"
+FORM_DATA = (b"q (f\rm) Tj <46 4d> Tj /N#41 gs\r BI /W 1 /H 1 /BPC 8 /CS /G ID \x81\x82 EI Q /IIm1 Do\r"
+             b"q BI /W 3 /H 3 /BPC 8 /CS /G ID 123456789 EI Q\r\n")
+FORM_PRE = {b"IIm1": b"PRE-FORM-IIm1"}
+# names that already exist in the /XObject resources of the pages of document k (k modulo the length)
+PRE_SETS = [[], [b"IIm1", b"IIm2"], [b"IIm1"], [b"IIm2", b"IIm4"], [b"IIm1", b"IIm2", b"IIm3"], []]
+
+
+def pre_data(name):
+    return b"PRE-PAGE-" + name
+
+
+def pre_image(d, data):
+    return d.add(Stream(D(Type=N("XObject"), Subtype=N("Image"), Width=len(data), Height=1, BitsPerComponent=8, ColorSpace=N("DeviceGray")), data))
 FAKE_DATA = b"(a\rb) Tj <41> Tj /A#42 gs\r\n % not a content stream\r"
 
 
-def build_doc(rng, pages):
-    """pages: list of lists of content streams. Returns (bytes, page stream lists)"""
+def build_doc(rng, pages, pre=()):
+    """pages: list of lists of content streams; pre: names of image XObjects that already exist in every page's resources"""
     d = pdfgen.Doc()
     cat = d.add(None)
     pgs = d.add(None)
     font = d.add(D(Type=N("Font"), Subtype=N("Type1"), BaseFont=N("Helvetica")))
     font2 = d.add(D(Type=N("Font"), Subtype=N("Type1"), BaseFont=N("Courier")))
-    form = d.add(Stream(D(Type=N("XObject"), Subtype=N("Form"), BBox=[0, 0, 10, 10], Resources=D(ProcSet=[N("PDF")])), FORM_DATA))
+    form = d.add(Stream(D(Type=N("XObject"), Subtype=N("Form"), BBox=[0, 0, 10, 10],
+                          Resources={b"ProcSet": [N("PDF")], b"XObject": {k: pre_image(d, v) for k, v in FORM_PRE.items()}}), FORM_DATA))
+    pre_refs = {n: pre_image(d, pre_data(n)) for n in pre}
     form2 = d.add(Stream(D(Type=N("XObject"), Subtype=N("Form"), BBox=[0, 0, 10, 10], Resources=D(ProcSet=[N("PDF")])), b"q (unused\r) Tj Q\r"))
     fake = d.add(Stream(D(Note=Str(b"not content")), FAKE_DATA))
     refs = []
     for streams in pages:
         srefs = [d.add(Stream({}, s)) for s in streams]
         pg = D(Type=N("Page"), Parent=pgs, MediaBox=[0, 0, 200, 200], Contents=(srefs[0] if len(srefs) == 1 and rng.random() < 0.7 else srefs),
-               Resources=D(Font=D(F1=font, F2=font2), XObject=D(Fm1=form, Fm2=form2)))
+               Resources={b"Font": D(F1=font, F2=font2), b"XObject": {**{b"Fm1": form, b"Fm2": form2}, **pre_refs}})
         refs.append(d.add(pg))
     d.objects[pgs.n] = D(Type=N("Pages"), Count=len(refs), Kids=refs)
     d.objects[cat.n] = D(Type=N("Catalog"), Pages=pgs, Fake=fake)
@@ -278,6 +292,10 @@ CONFIGS = [
 ]
 
 
+def pre_of(doc_index):
+    return PRE_SETS[doc_index % len(PRE_SETS)]
+
+
 def gen_docs(chk):
     rng = chk.rng
     ndocs = 5 if chk.tier == "quick" else 120
@@ -293,7 +311,7 @@ def gen_docs(chk):
         pages = []
         for pi in range(6):
             kind = pi % 6
-            c, cuts = cli_content(rng, rng.randint(2, 6), images=(kind in (1, 3, 5)))
+            c, cuts = cli_content(rng, rng.randint(2, 6), images=(kind in (1, 3, 5)), pre=pre_of(di + 1))
             if kind in (0, 1):
                 pages.append([c])
             elif kind in (2, 3):
@@ -318,7 +336,7 @@ def part_cli(chk, runner):
     jobs = []
     for di, pages in enumerate(docs):
         path = os.path.join(wd, "in%d.pdf" % di)
-        open(path, "wb").write(build_doc(rng, pages))
+        open(path, "wb").write(build_doc(rng, pages, pre_of(di)))
         damaged_doc = (di == len(docs) - 1)
         for name, cfg in CONFIGS:
             jobs.append((di, name, cfg, path))
@@ -339,6 +357,34 @@ def part_cli(chk, runner):
         rc, so, se = common.run_qpdf(["--static-id"] + cfg + [path, out], timeout=60)
         return rc, se, out
     results = common.par_map(run_job, jobs, workers=4)
+    # two- and three-step histories with decreasing --ii-min-bytes: the images moved out by an earlier step are in the
+    # resources as /IIm1 ... when the next step names its images
+    hists = []
+    for di, pages in enumerate(docs[:-1]):
+        lens = sorted({len(m.group(1)) for ps in pages for s in ps for m in re.finditer(rb"ID[\x00\t\n\x0c\r ](.*?)EI", s, re.S)} | {2, 9})
+        mid = lens[len(lens) // 2]
+        hists.append((di, "h2", [mid, 0]))
+        hists.append((di, "h3", [lens[-1], mid, min(3, mid)]))
+        if chk.tier != "quick":
+            hists.append((di, "hall", sorted(set(lens + [0]), reverse=True)))
+
+    def run_hist(h):
+        di, hname, mins_ = h
+        cur = os.path.join(wd, "in%d.pdf" % di)
+        res = []
+        for k, mn in enumerate(mins_):
+            out = os.path.join(wd, "out%d-%s-step%d.pdf" % (di, hname, k))
+            cfg = ["--externalize-inline-images", "--ii-min-bytes=%d" % mn, "--decode-level=none", "--compress-streams=n"] + (["--qdf"] if (k + di) % 2 else [])
+            rc, so, se = common.run_qpdf(["--static-id"] + cfg + [cur, out], timeout=60)
+            res.append(((di, "externalize-%s-step%d" % (hname, k), cfg, cur), (rc, se, out)))
+            if rc not in (0, 3) or not os.path.exists(out):
+                break
+            cur = out
+        return res
+    for lst in common.par_map(run_hist, hists, workers=4):
+        for j, r in lst:
+            jobs.append(j)
+            results.append(r)
     readable = [i for i, (rc, se, out) in enumerate(results) if rc in (0, 3) and os.path.exists(out)]
     srs = filecheck.strict_read([results[i][2] for i in readable])
     sr_of = dict(zip(readable, srs))
@@ -404,7 +450,15 @@ def part_cli(chk, runner):
             pdesc = {"page": pi, "input_streams": [repr(s) for s in ps], "output_streams": [repr(s)[:600] for s in os_]}
             if extern:
                 pdesc["fragments"] = any(x == "invalid" for x in sems)
+                pdesc["_pre"] = {n: pre_data(n) for n in pre_of(di)}
+                pdesc["_names"] = ([b"F1", b"F2", b"Fm1", b"Fm2"] + list(pre_of(di))) if "-step" not in name or name.endswith("-step0") else None
                 checks.append(("extern", ji, pi, ps, os_, ores, sd, min_bytes, pdesc))
+                if pi == 0 and isinstance(oform, Stream):
+                    # the form XObject has its own resources (with an /IIm1 of its own) and its own tracker
+                    fdesc = {"page": "form XObject /Fm1", "input_streams": [repr(FORM_DATA)], "output_streams": [repr(stream_bytes(oform))[:600]],
+                             "fragments": False, "_pre": dict(FORM_PRE),
+                             "_names": list(FORM_PRE) if "-step" not in name or name.endswith("-step0") else None}
+                    checks.append(("extern", ji, "form", [FORM_DATA], [stream_bytes(oform)], deref(sd, oform.d.get(b"Resources")) or {}, sd, min_bytes, fdesc))
                 continue
             if coalescing and len(ps) > 1:
                 if len(os_) != 1:
@@ -485,6 +539,7 @@ def part_cli(chk, runner):
             lines.append("c16sem " + hexs(c16_coalesce_py(c[4])))
             lines.append("c16sem " + hexs(c16_coalesce_py(c[3])))
     sem_res = iter(common.run_lines(runner, lines, shards=4))
+    name_ties = []
     for c in checks:
         if c[0] == "sem":
             _, ji, pi, outs, wants, pdesc, tie_ok = c
@@ -503,13 +558,24 @@ def part_cli(chk, runner):
             whole = next(sem_res)
             di, name, cfg, path = jobs[ji]
             desc = {"argv": ["qpdf", "--static-id"] + cfg + [os.path.basename(path), os.path.basename(results[ji][2])], "doc": di, "_path": path}
-            check_extern(chk, name, desc, pdesc, ps, os_, ores, sd, min_bytes, got, whole, results[ji])
+            new_names = check_extern(chk, name, desc, pdesc, ps, os_, ores, sd, min_bytes, got, whole, results[ji])
+            if new_names is not None and pdesc.get("_names") is not None:
+                name_ties.append((desc, pdesc, pdesc["_names"], new_names))
+    # the names given to the new image XObjects against the extracted model of getUniqueResourceName
+    nres = common.run_lines(runner, ["c16names %s 1 %d" % (",".join(hexs(b"/" + n) for n in ex), len(nn)) for _, _, ex, nn in name_ties], shards=4)
+    for (desc, pdesc, ex, nn), o in zip(name_ties, nres):
+        want = [bytes.fromhex(x)[1:] for x in o.split(",")] if o not in ("-", "logic") else []
+        if want != nn:
+            tie_fail.append(({k: v for k, v in desc.items() if k != "_path"},
+                             {"page": pdesc.get("page"), "why": "resource names of the new images differ from the model", "model": [repr(x) for x in want], "qpdf": [repr(x) for x in nn]}))
     if tie_fail:
         chk.violation({"kind": "correspondence-broken", "correspondence": "corr:C16:cli", "differing_cases": len(tie_fail), "first_case": tie_fail[0][0],
                        "detail": tie_fail[0][1], "note": "the bytes qpdf wrote differ from the extracted model's but read the same through the specification"}, no_input=True)
     chk.count("cli", len(jobs), nontriv, samples=[{"argv": ["qpdf"] + jobs[i][2]} for i in (0, len(jobs) // 2)])
     chk.cov["parts"]["cli"]["distribution"] = kinds
     chk.cov["parts"]["cli"]["documents"] = len(docs)
+    chk.cov["parts"]["cli"]["name_allocations_compared"] = len(name_ties)
+    chk.cov["parts"]["cli"]["histories"] = len(hists)
 
 
 def c16_coalesce_py(ps):
@@ -541,14 +607,29 @@ def check_extern(chk, name, desc, pdesc, ps, os_, ores, sd, min_bytes, got, whol
             sig = "C16:cli:findei-d0"      # the true EI was rejected because d0/d1 follows (finding C16-F6)
         d2 = {k: v for k, v in desc.items() if k != "_path"}
         chk.violation(dict({"kind": "property-fails-on-implementation", "part": "cli-" + name, "why": why, "exit": rc, "stderr": stderr[-600:],
-                            "input_pdf_hex": open(desc["_path"], "rb").read().hex()}, **d2, **pdesc, **kw),
+                            "input_pdf_hex": open(desc["_path"], "rb").read().hex()}, **d2, **{k: v for k, v in pdesc.items() if not k.startswith("_")}, **kw),
                       signature=sig)
     if whole == "invalid" or any(g == "invalid" for g in got):
-        if whole != "invalid":
+        # a page split inside a token that keeps its streams is normalised stream by stream (--qdf): compared by the
+        # normalisation jobs, not at page level
+        if whole != "invalid" and not (pdesc.get("fragments") and len(os_) == len(ps) > 1):
             fail("externalisation produced content that cannot be read")
-        return
+        return None
     segs = split_images(whole)
     big = [s for s in segs if s[0] == "img" and len(bytes.fromhex(s[2]) if s[2] != "-" else b"") >= min_bytes]
+    xo0 = deref(sd, ores.get(b"XObject")) or {}
+    for pname, pdata in sorted(pdesc.get("_pre", {}).items()):
+        im0 = deref(sd, xo0.get(pname))
+        try:
+            same = isinstance(im0, Stream) and stream_bytes(im0) == pdata
+        except Exception:
+            same = False
+        if not same:
+            fail("the image XObject /%s that already existed in the resources (and that the content draws with '/%s Do') was replaced"
+                 % (pname.decode(), pname.decode()), sig="C16:cli:externalize-name-clash",
+                 got=repr(im0.data)[:120] if isinstance(im0, Stream) else repr(im0)[:120], want=repr(pdata))
+            return None
+    new_names = []
     gtoks = []
     for g in got:
         gtoks += g.split(" ") if g != "-" else []
@@ -557,7 +638,8 @@ def check_extern(chk, name, desc, pdesc, ps, os_, ores, sd, min_bytes, got, whol
         # normalisation jobs, not here)
         if got[0] != whole and not pdesc.get("fragments"):
             fail("page content reads differently although no inline image reaches --ii-min-bytes", expected=whole[:500], got=got[0][:500])
-        return
+            return None
+        return []
     xo = deref(sd, ores.get(b"XObject")) or {}
     gi = 0
     for s in segs:
@@ -565,7 +647,7 @@ def check_extern(chk, name, desc, pdesc, ps, os_, ores, sd, min_bytes, got, whol
             want = [s[1]] if s[0] == "tok" else (["op:4249"] + s[1] + ["op:4944", "img:" + s[2]])
             if gtoks[gi:gi + len(want)] != want:
                 fail("tokens around externalised images changed", expected=want[:8], got=gtoks[gi:gi + len(want)][:8])
-                return
+                return None
             gi += len(want)
             continue
         pair = gtoks[gi:gi + 2]
@@ -574,12 +656,16 @@ def check_extern(chk, name, desc, pdesc, ps, os_, ores, sd, min_bytes, got, whol
             nul = any(b"ID\x00" in x for x in ps) and "trailing data found parsing object from string" in stderr
             fail("an inline image of %d bytes was not replaced by '/Name Do'" % (len(s[2]) // 2), got=pair,
                  sig="C16:cli:externalize-nul-after-id" if nul else "C16:cli:externalize")
-            return
+            return None
         nmb = bytes.fromhex(pair[0][2:])
+        if nmb in new_names or nmb in pdesc.get("_pre", {}):
+            fail("two drawing positions use the same image XObject name /%s" % nmb.decode("latin-1"), sig="C16:cli:externalize-name-clash")
+            return None
+        new_names.append(nmb)
         img = deref(sd, xo.get(nmb))
         if not isinstance(img, Stream):
             fail("image XObject /%s missing from the page's resources" % nmb.decode("latin-1"))
-            return
+            return None
         exp = expected_xobject(s[1])
         have = {k: v for k, v in dict(model_tree(img.d, sd)[1]).items() if k != nm(b"Length")}
         try:
@@ -591,10 +677,10 @@ def check_extern(chk, name, desc, pdesc, ps, os_, ores, sd, min_bytes, got, whol
                     have.pop(nm(b"Filter"))
         except Exception as e:
             fail("image XObject data unreadable: %r" % (e,))
-            return
+            return None
         if idata != (bytes.fromhex(s[2]) if s[2] != "-" else b""):
             fail("image XObject data differ from the inline image's data", got=repr(idata)[:200], want=s[2])
-            return
+            return None
         if have != exp:
             diff = sorted(k for k in set(exp) | set(have) if exp.get(k) != have.get(k))
             cs_abbrev = (diff == [nm(b"ColorSpace")] and isinstance(have.get(nm(b"ColorSpace")), tuple)
@@ -606,6 +692,8 @@ def check_extern(chk, name, desc, pdesc, ps, os_, ores, sd, min_bytes, got, whol
                  got={bytes.fromhex(k[2:]).decode("latin-1"): str(have.get(k)) for k in diff})
     if gi != len(gtoks):
         fail("extra tokens after externalisation", got=gtoks[gi:gi + 8])
+        return None
+    return new_names
 
 
 def replay_cli(chk, rep):
